@@ -563,19 +563,11 @@ struct Case {
     plain_aux: bool,
     /// the buffer holds exactly this many bytes (None: any length 0..=MAXB)
     exact_len: Option<usize>,
-    /// the buffer starts with 00 00 00 01 (a box header with a 64-bit largesize)
-    largesize: bool,
 }
 
 /// One `next()` from any Inv state of the case, on any buffer of <= MAXB bytes.
 fn step_contract(case: Case) {
-    let mut data: [u8; MAXB] = kani::any();
-    if case.largesize {
-        data[0] = 0;
-        data[1] = 0;
-        data[2] = 0;
-        data[3] = 1;
-    }
+    let data: [u8; MAXB] = kani::any();
     let len: usize = match case.exact_len {
         Some(n) => n,
         None => kani::any(),
@@ -666,6 +658,11 @@ fn step_contract(case: Case) {
                 _ => assert!(false, "[C10] container errors are InvalidBox / ValidationFailed"),
             }
             assert!(finished1, "[C10,C01] no events after an error");
+            if k == 0 {
+                // every InvalidBox rejection leaves a state inside Inv, so feeding again after the error is
+                // covered by this same contract. (ValidationFailed for a reserved brob type: see err_then_refeed.)
+                assert!(inv_abs(&after), "[C01,C10] Inv holds after a rejected box");
+            }
             std::mem::forget(r);
             return;
         }
@@ -679,16 +676,17 @@ fn step_contract(case: Case) {
     std::mem::forget(r);
 }
 
-const ANY: Case = Case { phase: 0, plain_aux: false, exact_len: None, largesize: false };
+const ANY: Case = Case { phase: 0, plain_aux: false, exact_len: None };
 
 // Unwind bounds: emit_single's loop runs at most 3 times (header -> jxlp index -> first event); the only
 // other loops are memcmp (12 for the container signature, 4 for `tbox == CODESTREAM` / "brob", 3 for "jxl")
 // and is_prefix_of (<= 12). Unwinding assertions are on.
 //
 // Cost note: CBMC cannot see DetectState's niche-encoded discriminant as a constant once emit_single has
-// assigned `*state`, so every unrolled iteration of its loop explores all arms (about 30 s each). The two
-// general harnesses for WaitingBoxHeader and InAuxBox therefore take minutes (tier thorough); the quick
-// tier runs the same contract on buffers of a fixed length for which the loop provably stops early.
+// assigned `*state` (nor InAuxBox's at all: it lives in the Option tag of header.box_size), so every unrolled
+// iteration of its loop explores all arms, about 30 s each. The two general harnesses for WaitingBoxHeader
+// and InAuxBox therefore take minutes (tier thorough); for InAuxBox the quick tier runs the same contract on
+// the two sub-cases for which the loop provably stops after one iteration.
 #[kani::proof]
 #[kani::unwind(14)]
 fn step_signature() {
@@ -700,21 +698,6 @@ fn step_signature() {
 #[kani::unwind(5)]
 fn step_box_header() {
     step_contract(Case { phase: 1, ..ANY });
-}
-
-// WaitingBoxHeader, buffer = exactly one 8-byte header (all 2^64 of them): every dispatch and rejection
-// rule of the header arm, the silent transitions into a jxlc / jxlp / brob box, AuxBoxStart.
-#[kani::proof]
-#[kani::unwind(5)]
-fn step_box_header_8() {
-    step_contract(Case { phase: 1, exact_len: Some(8), ..ANY });
-}
-
-// WaitingBoxHeader, buffer = exactly one 16-byte header with a largesize field (all types and sizes).
-#[kani::proof]
-#[kani::unwind(5)]
-fn step_box_header_16() {
-    step_contract(Case { phase: 1, exact_len: Some(16), largesize: true, ..ANY });
 }
 
 #[kani::proof]
@@ -771,4 +754,35 @@ fn init_establishes_inv() {
         assert!(!it.finished && it.remaining_input.len() == 4 && it.remaining_input.as_ptr() == data.as_ptr(), "[C09] feed_bytes offers the whole buffer");
     }
     assert!(q.previous_consumed_bytes() == 0 && abs(&q) == before, "[C09] feed_bytes resets previous_consumed_bytes and nothing else");
+}
+
+// ------------------------------------------------------------------------------------------------
+// C01: feeding again after an error. InvalidBox rejections keep Inv (asserted in step_contract). The one
+// other rejection -- a brob box whose original type is reserved -- is checked here end to end: the caller
+// gets Err from one feed and, as the public API allows, feeds more bytes.
+// ------------------------------------------------------------------------------------------------
+#[kani::proof]
+#[kani::unwind(5)]
+fn err_then_refeed() {
+    // InAuxBox (any Inv state of that phase), then exactly the 4 bytes of the original type
+    let first: [u8; 4] = kani::any();
+    let second: [u8; 4] = kani::any();
+    let (_parts, mut parser) = any_inv_state(3);
+    let rejected = {
+        let mut it = parser.feed_bytes(&first);
+        let r = it.next();
+        let e = matches!(&r, Some(Err(Error::ValidationFailed(_))));
+        std::mem::forget(r);
+        e
+    };
+    kani::cover!(rejected);
+    if !rejected {
+        return;
+    }
+    assert!(inv(&parser), "[C01] Inv holds after a brob box of a reserved type was rejected");
+    // no panic (bytes_left -= 4 on a box that has fewer than 4 bytes left)
+    let mut it = parser.feed_bytes(&second);
+    let r = it.next();
+    kani::cover!(r.is_some());
+    std::mem::forget(r);
 }
